@@ -18,6 +18,34 @@ def cfunOp : List String → String
   | ["htp_is_folding_char", c] => match c.toInt? with
     | some x => showOpt ((htp_is_folding_char 4 x).map fun r => toString r.1)
     | none => "bad-op"
+  | ["htp_is_space", c] => match c.toInt? with
+    | some x => showOpt ((htp_is_space 4 x).map fun r => toString r.1)
+    | none => "bad-op"
+  | ["htp_is_separator", c] => match c.toInt? with
+    | some x => showOpt ((htp_is_separator 4 x).map fun r => toString r.1)
+    | none => "bad-op"
+  | ["htp_is_token", c] => match c.toInt? with
+    | some x => showOpt ((htp_is_token 4 x).map fun r => toString r.1)
+    | none => "bad-op"
+  | ["htp_treat_response_line_as_body", a] => match bytesOfHex a with
+    | some d => showOpt ((htp_treat_response_line_as_body (cfunFuel [d]) d d.length).map fun r => toString r.1)
+    | none => "bad-op"
+  | ["htp_parse_chunked_length", a] => match bytesOfHex a with
+    | some d => showOpt ((htp_parse_chunked_length (cfunFuel [d]) d d.length 0).map fun r => s!"{r.1} {r.2.extension}")
+    | none => "bad-op"
+  | ["bstr_util_cmp_mem_nocasenorzero", a, b] => match bytesOfHex a, bytesOfHex b with
+    | some x, some y => showOpt ((bstr_util_cmp_mem_nocasenorzero (cfunFuel [x, y]) x y x.length y.length).map fun r => toString r.1)
+    | _, _ => "bad-op"
+  | ["bstr_util_mem_index_of_mem_nocase", a, b] => match bytesOfHex a, bytesOfHex b with
+    | some x, some y => showOpt ((bstr_util_mem_index_of_mem_nocase (cfunFuel [x, y]) x y x.length y.length).map fun r => toString r.1)
+    | _, _ => "bad-op"
+  | ["bstr_util_mem_index_of_mem_nocasenorzero", a, b] => match bytesOfHex a, bytesOfHex b with
+    | some x, some y => showOpt ((bstr_util_mem_index_of_mem_nocasenorzero (cfunFuel [x, y]) x y x.length y.length).map fun r => toString r.1)
+    | _, _ => "bad-op"
+  | ["htp_normalize_uri_path_inplace", a] => match bytesOfHex a with
+    | some d => showOpt ((htp_normalize_uri_path_inplace (cfunFuel [d, d]) (Htp.CSem.memOf d) d.length).map fun r =>
+        hexOfBytes ((r.2.s__mem.take r.2.s__len.toNat).map fun v => UInt8.ofNat v.toNat))
+    | none => "bad-op"
   | ["htp_is_line_empty", a] => match bytesOfHex a with
     | some d => showOpt ((htp_is_line_empty (cfunFuel [d]) d d.length).map fun r => toString r.1)
     | none => "bad-op"
